@@ -42,6 +42,7 @@ func (g *genCase) pair() *pairCase {
 
 type convOutcome struct {
 	Accepted     bool
+	Crashed      bool
 	Script       string
 	Commands     []string
 	Conv         *clause // convergence (C01-C05)
@@ -74,7 +75,10 @@ func runConv(env *run.Env, g *genCase, wantPrefixes bool) *convOutcome {
 	r := runPair(env, g.pair(), false)
 	o := &convOutcome{}
 	if isCrash(r) {
-		o.Inconclusive = "tool-crash(decided by C20)"
+		// A valid pair (or the hybrid state of an interrupted approve)
+		// on which the tool dies can never converge.
+		o.Crashed = true
+		o.Conv = &clause{"crash:" + topRepoFrame(r.Stderr) + ":" + panicClass(r.Stderr), "tool died on a valid pair: " + firstLines(r.Stderr, 3)}
 		return o
 	}
 	if r.Exit != 0 {
